@@ -136,3 +136,14 @@ chk("C09", "exploration",
     "Trusted: the nine formulas written from the statement/docstrings; constants and unit scales read from the library as data. "
     "rel tol 1e-11 (lorentz 1e-7, beta <= 0.999999).",
     "exhaustive (equivalence, from, to, units) sweep + Hypothesis values vs closed-form formulas, round-trip and path laws", "DESIGN.md §3 C09")
+chk("C10", "exploration",
+    "Exhaustive: the 7 built-in unit systems x all atomic symbols of the independent table plus prefixed/compound/EM units "
+    "(~1250 pairs); generated: user-defined UnitSystems (base units per dimension incl. quantity-valued bases, 0-3 overrides, "
+    "with/without an MKS current) x atomic and compound units, a warmed and a cold copy of each system, quantities living in a "
+    "private code-unit registry, and one inconsistent construction per case. Judged: atoms of the result inside what the system "
+    "was constructed with (own record), dimension preserved or documented EM counterpart, round trip, get_base_equivalent / "
+    "convert_to_base / in_cgs / in_mks agreement, idempotence, independence of request history, result stays in its registry, "
+    "IllDefinedUnitSystem for inconsistent bases.",
+    "Trusted: hand-copied record of the built-in systems' definitions and the EM pairing table; UnitsNotReducible is always "
+    "accepted; scales beyond 1e+-60 excluded.",
+    "exhaustive (system, unit) enumeration + Hypothesis-generated unit systems with construction-record oracle", "DESIGN.md §3 C10")
